@@ -37,6 +37,7 @@ theorem noPendCleanup_top {s : St} {g : Frame} {rest : List Frame} (hst : s.stac
   unfold PendCleanup; rw [hst]
   cases g <;> simp only [Frame.resting] at hr <;> try (intro h; exact h)
   case flush => rintro ⟨tl, h⟩; rw [hw] at h; cases h
+  case exclActs => rintro ⟨tl, h⟩; rw [hw] at h; cases h
   case batch cs =>
     cases cs with
     | nil => intro h; exact h
@@ -191,42 +192,55 @@ theorem used_runFrame (p : Prog) (hh : Hist) {s : St} {f : Frame} {rest : List F
       rw [show flagOf T ((enqueue ({ s with stack := rest } : St) a).1.push _) = flagOf T (enqueue ({ s with stack := rest } : St) a).1 by cases T <;> rfl, hfl]
       cases T <;> exact this
   | exclActs sys i =>
-    obtain ⟨k, tl, hwq, _, _⟩ := htop
-    have hold : ∀ T, uses T k = true → flagOf T s = true := fun T h => hu k T (by unfold PendCleanup; rw [hs]; exact ⟨tl, hwq⟩) h
     simp only [runFrame, doExclActs]
-    split
-    · intro k' T hpc hus
-      have hk : k' = k := by
-        unfold PendCleanup at hpc
-        simp only [St.push, St.emit, List.cons_append, List.nil_append] at hpc
-        obtain ⟨tl', h'⟩ := hpc
-        have hwq' : ({ s with stack := rest } : St).wq = Cmd.cleanup k :: tl := hwq
-        rw [hwq'] at h'
-        injection h' with h1 _
-        injection h1 with h2
-        exact h2.symm
-      subst hk
-      have := hold T hus
-      cases T <;> exact this
-    · rename_i a _
-      intro k' T hpc hus
-      have hk : k' = k := by
-        unfold PendCleanup at hpc
-        simp only [St.push, List.cons_append, List.nil_append] at hpc
-        obtain ⟨tl', h'⟩ := hpc
-        have hwq' : (enqueue ({ s with stack := rest } : St) a).1.wq = Cmd.cleanup k :: tl := by
-          rw [enqueue_wq]; exact hwq
-        rw [hwq'] at h'
-        simp only [List.cons_append, List.cons.injEq, Cmd.cleanup.injEq] at h'
-        exact h'.1.symm
-      subst hk
-      have := hold T hus
-      have hfl := flagOf_of_Fl (Fl_enqueue ({ s with stack := rest } : St) a) T
-      have e1 : flagOf T (({ (enqueue ({ s with stack := rest } : St) a).1 with
-          wq := (enqueue ({ s with stack := rest } : St) a).1.wq ++ (enqueue ({ s with stack := rest } : St) a).2 } : St).push
-          [Frame.exclActs sys (i + 1)]) = flagOf T (enqueue ({ s with stack := rest } : St) a).1 := by cases T <;> rfl
-      rw [e1, hfl]
-      cases T <;> exact this
+    rcases htop with ⟨k, tl, hwq, _, _⟩ | ⟨_, hcl⟩
+    · have hold : ∀ T, uses T k = true → flagOf T s = true := fun T h => hu k T (by unfold PendCleanup; rw [hs]; exact ⟨tl, hwq⟩) h
+      -- whatever the body does next, the same cleanup stays first in the world queue and the flags stay
+      have key : ∀ (s' : St) (g : Frame) (rest' : List Frame) (tl' : List Cmd), s'.stack = g :: rest' →
+          (g = .flush ∨ ∃ j, g = .exclActs sys j) → s'.wq = Cmd.cleanup k :: tl' → (∀ T, flagOf T s' = flagOf T s) → Used s' := by
+        intro s' g rest' tl' hst' hg hwq' hfl k' T hpc hus
+        have hk : k' = k := by
+          unfold PendCleanup at hpc; rw [hst'] at hpc
+          rcases hg with rfl | ⟨j, rfl⟩
+          all_goals
+            obtain ⟨tl2, h2⟩ := hpc
+            rw [hwq'] at h2
+            simp only [List.cons.injEq, Cmd.cleanup.injEq] at h2
+            exact h2.1.symm
+        subst hk
+        rw [hfl T]; exact hold T hus
+      split
+      · exact key _ .flush rest tl (by simp [St.push, St.emit]) (Or.inl rfl) (by simpa [St.push, St.emit] using hwq) (fun T => by cases T <;> rfl)
+      · rename_i a _
+        have hwq' : (enqueue ({ s with stack := rest } : St) a).1.wq ++ (enqueue ({ s with stack := rest } : St) a).2 =
+            Cmd.cleanup k :: (tl ++ (enqueue ({ s with stack := rest } : St) a).2) := by
+          rw [enqueue_wq]; simp [hwq]
+        have hfl : ∀ T, flagOf T (enqueue ({ s with stack := rest } : St) a).1 = flagOf T s := fun T => by
+          rw [flagOf_of_Fl (Fl_enqueue ({ s with stack := rest } : St) a) T]; cases T <;> rfl
+        split
+        · exact key _ .flush (Frame.exclActs sys (i + 1) :: rest) _ (by simp [St.push]) (Or.inl rfl) (by simpa [St.push] using hwq')
+            (fun T => by rw [← hfl T]; cases T <;> rfl)
+        · exact key _ (.exclActs sys (i + 1)) rest _ (by simp [St.push]) (Or.inr ⟨_, rfl⟩) (by simpa [St.push] using hwq')
+            (fun T => by rw [← hfl T]; cases T <;> rfl)
+    · -- the cleanup has already run (a mid-body flush): nothing is pending whatever the body queues
+      have nopend : ∀ (s' : St) (g : Frame) (rest' : List Frame), s'.stack = g :: rest' →
+          (g = .flush ∨ ∃ j, g = .exclActs sys j) → cleanList s'.wq → Used s' := by
+        intro s' g rest' hst' hg hcl' k' T hpc _
+        exfalso
+        unfold PendCleanup at hpc; rw [hst'] at hpc
+        rcases hg with rfl | ⟨j, rfl⟩
+        all_goals
+          obtain ⟨tl2, h2⟩ := hpc
+          have := hcl' (Cmd.cleanup k') (by rw [h2]; simp)
+          simp [isCleanup] at this
+      split
+      · exact nopend _ .flush rest (by simp [St.push, St.emit]) (Or.inl rfl) (by simpa [St.push, St.emit] using hcl)
+      · rename_i a _
+        have hcl' : cleanList ((enqueue ({ s with stack := rest } : St) a).1.wq ++ (enqueue ({ s with stack := rest } : St) a).2) := by
+          rw [enqueue_wq]; exact cleanList_append hcl (enqueue_clean _ a)
+        split
+        · exact nopend _ .flush (Frame.exclActs sys (i + 1) :: rest) (by simp [St.push]) (Or.inl rfl) (by simpa [St.push] using hcl')
+        · exact nopend _ (.exclActs sys (i + 1)) rest (by simp [St.push]) (Or.inr ⟨_, rfl⟩) (by simpa [St.push] using hcl')
   | topActs t i =>
     obtain ⟨_, hcl⟩ := htop
     simp only [runFrame, doTopActs]
